@@ -2,7 +2,7 @@ PROP = dict(
         coq="Properties/C07.v",
         workloads=[
             dict(name="liquidity-orders", go_test="TestC07", runner="C07",
-                 env=dict(quick=dict(VERIF_CASES=40), thorough=dict(VERIF_CASES=800))),
+                 env=dict(quick=dict(VERIF_CASES=40), thorough=dict(VERIF_CASES=600))),
             dict(name="keeper-f1", go_test="TestC05KeeperHunt", runner="C07",
                  env=dict(quick=dict(VERIF_CASES=2), thorough=dict(VERIF_CASES=20))),
         ],
